@@ -260,6 +260,30 @@ def run(check, repo: Repo) -> None:
                  fail_detail=f"`{unparse(e)[:90] if e is not None else '?'}` narrows the names with {narrowing}: a load-time name that exists only below the root survives in the nested objects — "
                              f"load-time skipping no longer matches save-time skipping")
 
+    # ---- R8: the skip collections are shared by the whole traversal (one set per save()/load(), passed down unchanged and written to the
+    # file metadata): inside the traversal functions they are read-only.  A name added while visiting one object becomes a name-skip for every
+    # object visited later and for every later load — "exactly the named attributes" no longer holds.
+    MUT = {"add", "update", "discard", "remove", "pop", "clear", "append", "extend", "insert", "intersection_update", "difference_update", "symmetric_difference_update"}
+    n_ro = 0
+    for q_ in (f"{SER}:AutoSerialize._recursive_save", f"{SER}:AutoSerialize._serialize_value", f"{SER}:AutoSerialize._serialize_container",
+               f"{SER}:AutoSerialize._recursive_load", f"{SER}:AutoSerialize._deserialize_container"):
+        if not repo.has(q_):
+            continue
+        m_, f_ = repo.func(q_)
+        shared = [p_ for p_ in func_params(f_) if p_ in ("skip_names", "skip_types")]
+        for p_ in shared:
+            if [d for d in definitions(f_, p_) if d is not None and not (isinstance(d, str))]:
+                continue  # re-bound locally (a private copy): mutation of the copy is the business of R7-style rules
+            n_ro += 1
+            muts = [c for c in calls_in(f_) if isinstance(c.func, ast.Attribute) and c.func.attr in MUT and dotted(c.func.value) == p_]
+            muts += [n for n in ast.walk(f_) if isinstance(n, ast.AugAssign) and dotted(n.target) == p_]
+            muts += [n for n in ast.walk(f_) if isinstance(n, (ast.Assign, ast.Delete)) and any(isinstance(t, ast.Subscript) and dotted(t.value) == p_ for t in getattr(n, "targets", []))]
+            check.decide(not muts, "C14-R8", f"{q_.split(':')[1]}: the shared `{p_}` collection is only read during the traversal", "", m_.line(muts[0] if muts else f_), definite=True,
+                         fail_detail=f"`{unparse(muts[0])[:60] if muts else ''}` modifies the `{p_}` object that save()/load() created once and hands to every nested call (and, on save, "
+                                     f"writes into the file's skip metadata): whatever is added while visiting one object is skipped BY NAME in every object visited afterwards "
+                                     f"and at every later load")
+    check.floor("shared skip collections (traversal parameters)", n_ro, 6)
+
     # ---- R5: skip metadata must not reach the loaded object ---------------------------------
     _rule_reserved_keys(check, repo, W, R, rule="C14-R5", only=lambda k: k.startswith("_autoserialize_skip"))
 
